@@ -456,6 +456,14 @@ Deactivate ==
 CondAuxesOf(k) == LET acts == Fr(k).precur
                       idx == {i \in 1..Len(acts) : acts[i].k = "auxif"} IN
                   {acts[i].aux : i \in idx}
+\* the active frames of a framer whose active frame is a: the outline of a, cut at the first (top-most)
+\* frame that has a running conditional auxiliary (C05 / C10: the frames below stay suspended for as
+\* long as the auxiliary runs, also when a transition taken above the main frame keeps the main frame, and
+\* also when an outer conditional auxiliary completes while an inner one is still running)
+CutOutlineOf(a, F) ==
+    LET full == Outline(a)
+        mains == {i \in 1..Len(full) : \E x \in CondAuxesOf(full[i]) : ~F[x].done /\ F[x].main = full[i]} IN
+    IF mains = {} THEN full ELSE SubSeq(full, 1, CHOOSE i \in mains : \A j \in mains : i <= j)
 RECURSIVE SetToSeqOps(_, _)
 SetToSeqOps(S, k) == IF S = {} THEN <<>>
                      ELSE LET x == CHOOSE y \in S : TRUE IN
@@ -485,7 +493,7 @@ ForceExit ==
 
 Activate ==
     /\ todo # <<>> /\ H.op = "activate"
-    /\ SetF(H.f, [fs[H.f] EXCEPT !.active = H.k, !.actives = Outline(H.k)])
+    /\ SetF(H.f, [fs[H.f] EXCEPT !.active = H.k, !.actives = CutOutlineOf(H.k, fs)])
     /\ Pop /\ lab' = Silent
     /\ UNCHANGED <<stamps, xstore, marks, prog, phase, now, tickn, pending, ready, more, cur, store, entered, crashed, sweeps>>
 
@@ -610,9 +618,9 @@ Suspend(resume) ==
 Reactivate ==
     /\ todo # <<>> /\ H.op = "reactivate"
     /\ LET f == H.f
-           full == Outline(fs[f].active)
+           full == CutOutlineOf(fs[f].active, fs)   \* the completed auxiliary is done by now
            c == H.cont
-           \* frames of the full outline that lie below the frames the walk still has
+           \* frames of the restored outline that lie below the frames the walk still has
            below == SubSeq(full, Len(fs[f].actives) + 1, Len(full)) IN
        /\ SetF(f, [fs[f] EXCEPT !.actives = full])
        /\ Push(<< IF H.resume /\ ~H.first THEN [c EXCEPT !.ks = @ \o below] ELSE c >>)
@@ -693,8 +701,7 @@ RunningCondMain(f) == {k \in Range(Outline(fs[f].active)) :
 ActivesAreOutline ==
     Quiescent => \A f \in Taskables \cup Slaves :
         IF Running(f)
-        THEN \/ fs[f].actives = Outline(fs[f].active)
-             \/ \E k \in RunningCondMain(f) : fs[f].actives = HeadOf(k)
+        THEN fs[f].actives = CutOutlineOf(fs[f].active, fs)
         ELSE \/ fs[f].actives = <<>> /\ fs[f].active = ""
              \/ crashed # "" /\ fs[f].status = "aborted"   \* the tasker an exception unwound is dead as it was
 
